@@ -224,9 +224,12 @@ def check_all(ctx, facts):
                         parent = fdesc[:-len("::f")]
                         f_ok = True
                 if parent is not None:
-                    sliced = any(v[0] == "call" and re.search(r"Index(<.*>)?( for str)?>?::index$", v[1]) for o in src for v in o.via) and \
-                        any(v[0] == "binop" and v[1] in ("SubWithOverflow", "Sub") and v[2] == 3 for o in
-                            [x for b in name_fn.calls_re(r"Index(<.*>)?( for str)?>?::index$") for x in prov.of_operand(name_fn, name_fn.term(b)["args"][1])] for v in o.via)
+                    rng = [x for b in name_fn.calls_re(r"Index(<.*>)?( for str)?>?::index$") for x in prov.of_operand(name_fn, name_fn.term(b)["args"][1])]
+                    by_three = any(v[0] == "binop" and v[1] in ("SubWithOverflow", "Sub") and v[2] == 3 for o in rng for v in o.via)
+                    # `name.len() - "::f".len()`: the subtrahend is the length of the literal suffix
+                    by_len = any(o.kind == "const" and str(o.key) == '"::f"' and any(v[0] == "call" and v[1].endswith("::len") for v in o.via) and
+                                 any(v[0] == "binop" and v[1] in ("SubWithOverflow", "Sub") for v in o.via) for o in rng)
+                    sliced = any(v[0] == "call" and re.search(r"Index(<.*>)?( for str)?>?::index$", v[1]) for o in src for v in o.via) and (by_three or by_len)
                     ok = f_ok and sliced and parent == name_fn.path
                     detail = "type name of %s in %s, `::f` suffix sliced off: %s" % (fdesc, parent, sliced)
                 ctx.check(ok, "R4", tp, tf.span,
